@@ -132,6 +132,10 @@ Common(tr, T, ev) ==
        Run(T, robv, EmptyComp(tr), ReplayRecs(T, ev)).err = ""),
     Cl("C11.prefix", live /\ ev.out = "ok" /\ ev.op # "condense",
        \A k \in 1..NLw(tr) : post.hsame[k] >= hn[k] /\ post.hn[k] >= hn[k]),
+    \* earlier entries are snapshots: no later successful operation changes or drops them, whatever happened in between
+    \* (this clause is not scoped by `live`: it also holds after a rejected operation)
+    Cl("C11.keeps", ev.out = "ok" /\ ev.op # "condense",
+       \A k \in 1..NLw(tr) : post.hsame[k] >= hn[k]),
     Cl("C11.newest", live /\ ev.out = "ok" /\ part # {} /\ ev.op \notin {"external", "rawemit"},
        \A k \in part : post.last[k].s = post.vol[k])
   }
@@ -583,6 +587,10 @@ JudgeFullHist(tr, T, ev) ==
                 /\ rp.blocks[i].rowmajor = RowMajor(g, h[i].s)
                 /\ rp.blocks[i].h = (h[i].h /\ h[i].l # "")
                 /\ rp.blocks[i].h => rp.blocks[i].l = h[i].l),
+    Cl("C11.fullkeeps", l > 1 /\ ev.out = "ok" /\ ev.op # "condense",
+       \A k \in 1..NLw(tr) :
+          LET old == tr.events[l - 1].post.hist[k]  new == post.hist[k] IN
+          Len(new) >= Len(old) /\ SubSeq(new, 1, Len(old)) = old),
     Cl("C11.histlen", TRUE, \A k \in 1..NLw(tr) : Len(post.hist[k]) = post.hn[k])
   }
 
